@@ -196,6 +196,14 @@ def viability_condition(ctx, fi: FunctionInfo):
                         a = p_not(p_atom(f"DISTINCT_ON_OTHER_PAIRS_{fk.replace('+sorted', '')}({a0.replace(' ', '')}~{a1.replace(' ', '')})"))
                         return p_not(a) if neg else a
                     return None
+                # any other test built on the rates of adjacent groups (exact `!=` on a diff, another
+                # tolerance ...) is not the isclose-based test of the statement: a different atom
+                if "['target_rate']" in unparse(arg) and (".diff(" in unparse(arg) or ".shift(" in unparse(arg)) and not (isinstance(arg, ast.Call) and call_name(arg) == "isclose"):
+                    frame = unparse(arg).split("[")[0].lstrip("(~-")
+                    fk = _frame_kind(cfg, fn, frame, use) if frame.isidentifier() else None
+                    if fk is not None:
+                        a = p_atom(f"OTHER_ADJACENT_RATES_TEST_{fk.replace('+sorted', '')}({kind}:{unparse(arg).replace(' ', '')[:50]})")
+                        return p_not(a) if neg else a
                 # RANKS: all(T.sort_values("target_rate").index == D.sort_values("target_rate").index)
                 if kind == "all" and isinstance(arg, ast.Compare) and isinstance(arg.ops[0], ast.Eq):
                     sides = [unparse(arg.left), unparse(arg.comparators[0])]
